@@ -360,7 +360,7 @@ def refname_events(cases, outs):
 
 def run(ctx):
     binary = ctx.build("vh-c06")
-    per_ep = 3 if not ctx.thorough else 40
+    per_ep = 3 if not ctx.thorough else 20
     rendered = rendered_seeds(ctx, True, per_ep) if ctx.thorough else load_corpus()
     made = git_seeds(ctx)
     seeds = {}
@@ -422,9 +422,14 @@ def run(ctx):
     ref_evs += refname_events(both, outs2)
     for bi in ctx.tlc_trace("ref", "RefName_Trace", ref_evs):
         e = ref_evs[bi]
-        worst["refname:verdict:%d" % bi] = {"kind": "refname", "case": {"ep": "refname", "input": e["input"]}, "ep": "refname", "outcome": "value",
-                                           "detail": "verdicts / sanitised name rejected by RefName_Trace", "classes": ["refname:verdict"],
-                                           "event": e, "input_text": show_bytes(e["input"]), "count": 1}
+        # the lone `@` (accepted by gitoxide's validators, refused by git) is C15's recorded finding; same shape of record here
+        k = "refname:lone-at" if e["sanitized"] == [64] else "refname:verdict"
+        if k in worst and len(worst[k]["case"]["input"]) <= len(e["input"]):
+            worst[k]["count"] += 1
+            continue
+        worst[k] = {"kind": "refname", "case": {"ep": "refname", "input": e["input"]}, "ep": "refname", "outcome": "value",
+                    "detail": "verdicts / sanitised name rejected by RefName_Trace", "classes": [k],
+                    "event": e, "input_text": show_bytes(e["input"]), "count": (worst[k]["count"] + 1 if k in worst else 1)}
     for k in sorted(worst):
         ctx.violation(worst[k])
     ctx.cov["violation_classes"] = {k: v["count"] for k, v in worst.items()}
